@@ -431,7 +431,22 @@ class SettingModel:
             self.inst_env[k] = vals[0] if len(vals) == 1 else ("phi", tuple(vals))
         self.init_writes = [ev for p in normal_init for ev in p.state.events if ev[0] == "write"]
         self.enter_paths = self._run("__enter__", "enter", self.inst_env)
-        self.exit_paths = self._run("__exit__", "exit", self.inst_env)
+        # instance attributes (re-)bound by __enter__ are what __exit__ reads: overlay them on the constructor's
+        self.exit_env: Dict[str, Any] = dict(self.inst_env)
+        normal_enter = [p for p in self.enter_paths if p.outcome != "raise"]
+        ekeys = set()
+        for p in normal_enter:
+            ekeys |= set(p.state.inst)
+        for k in ekeys:
+            vals = []
+            for p in normal_enter:
+                v = p.state.inst.get(k, self.inst_env.get(k, ("expr", "<unset>")))
+                v = subst_inst(v, self.inst_env)
+                if v not in vals:
+                    vals.append(v)
+            self.exit_env[k] = vals[0] if len(vals) == 1 else ("phi", tuple(vals))
+        self.exit_paths = self._run("__exit__", "exit", self.exit_env)
+        self.capture_phase: Dict[str, set] = {}
 
     def _run(self, name: str, phase: str, inst_env) -> List[PathResult]:
         fi = self.C.lookup(name)
@@ -500,7 +515,7 @@ def run(idx: ProgramIndex, rep: Report, tier: str):
         "coded default. Decides the scoping discipline for every nesting depth and exception point at once; does not "
         "decide thread-safety.")
     rep.rule("C20-1", "every exported setting is a scoped context manager (inventory)")
-    rep.rule("C20-2", "every field __enter__ may write is restored on every path of __exit__ from the value captured from that field at construction")
+    rep.rule("C20-2", "every field __enter__ may write is restored on every path of __exit__ from the value captured from that field before the block wrote it")
     rep.rule("C20-3", "overrides of __init__/__enter__/__exit__ call the same-named super() method on every normal path")
     rep.rule("C20-4", "__exit__ returns a falsy value and nothing that can raise precedes a restore; nothing that can raise follows the writes of __enter__")
     rep.rule("C20-5", "no code outside the protocol methods of setting classes writes a global setting field")
@@ -546,6 +561,7 @@ def run(idx: ProgramIndex, rep: Report, tier: str):
     for key in sorted(models):
         check_pairing(idx, rep, models[key])
         check_exit_enter_discipline(idx, rep, models[key])
+    check_capture_phase(idx, rep, models)
     check_override_chaining(idx, rep, family)
     fields = global_field_names(idx, family)
     check_who_may_write(idx, rep, family, fields)
@@ -627,19 +643,24 @@ def check_pairing(idx: ProgramIndex, rep: Report, m: SettingModel):
         captured = ("field", f, "init")
         default = C.lookup_attr(f)
         problems = []
+        phases: set = set()
         reset_idiom = False
         for p in exit_norm:
             ws = [ev for ev in p.state.events if ev[0] == "write" and ev[1] == f]
             if ws:
-                v = subst_inst(ws[-1][2], m.inst_env)
-                if v == captured:
+                v = subst_inst(ws[-1][2], m.exit_env)
+                if v == captured or v == ("field", f, "enter"):
+                    phases.add(v[2])
+                    continue
+                if v[0] == "phi" and all(x in (captured, ("field", f, "enter")) for x in v[1]):
+                    phases |= {x[2] for x in v[1]}
                     continue
                 # reset idiom: enter and exit both store the same constant, which is also the class default
                 enter_vals = {subst_inst(ev[2], m.inst_env) for ev in written[f]}
                 if v[0] == "const" and enter_vals == {v} and default is not None and isinstance(default[1], ast.Constant) and default[1].value == v[1]:
                     reset_idiom = True
                     continue
-                problems.append("restores %s instead of the value captured from %s at construction" % (show(v), f))
+                problems.append("restores %s instead of the value captured from %s before the block wrote it" % (show(v), f))
             else:
                 # no write on this path: acceptable only if the path is infeasible under the nullness invariant
                 feasible = True
@@ -653,7 +674,8 @@ def check_pairing(idx: ProgramIndex, rep: Report, m: SettingModel):
                     conds = ["%s = %s" % (show(subst_inst(g, m.inst_env)), t) for g, t in p.state.guards]
                     problems.append("no restore of %s on the __exit__ path with %s" % (f, "; ".join(conds) if conds else "no guard"))
         ok = not problems
-        detail = ("restored on every path of __exit__ from the value read at construction" + (" (reset-to-default idiom)" if reset_idiom else "")) if ok else "; ".join(sorted(set(problems)))
+        m.capture_phase[f] = phases
+        detail = ("restored on every path of __exit__ from the value read from the field before the block wrote it" + (" (reset-to-default idiom)" if reset_idiom else "")) if ok else "; ".join(sorted(set(problems)))
         rep.add("C20-2", "%s:%s" % (inst, f), where, ok, detail,
                 {"field": f, "written_in_enter": [show(subst_inst(ev[2], m.inst_env)) for ev in written[f]][:4],
                  "never_None_invariant": f in inv, "exit_paths": len(exit_norm), "enter_paths": len(enter_norm)})
@@ -1002,3 +1024,32 @@ def check_given_vs_default(idx: ProgramIndex, rep: Report, family: set):
                     "%d selection(s) between a given value and the fallback, all by `is None`" % len(good) if not bad else
                     "`%s` selects the fallback whenever the argument is falsy: a block entered with 0 (or 0.0 / False) does not set that value, so the innermost block no longer determines it" % " ".join(src(bad[0]).split())[:70], {"by_is_none": len(good)})
     rep.floor("C20-8", "methods selecting between a given value and a fallback", n, 2)
+
+
+# ---- C20-9 ---------------------------------------------------------------------------------------------------------
+def check_capture_phase(idx: ProgramIndex, rep: Report, models):
+    """`on exit the previously visible value is restored`: previously visible when the block was ENTERED.  An instance that reads the
+    global in its constructor restores the value of construction time: `inner = S(100)` created before `with S(5): with inner: ...` puts
+    the default back while the outer block is still open (and an instance used for a second block restores the value of its first)."""
+    rep.rule("C20-9", "the value __exit__ restores is read from the global field in __enter__ (what is visible when the block is entered), not in the constructor")
+    n = 0
+    third_party = []
+    for key in sorted(models):
+        m = models[key]
+        C = m.C
+        for f, phases in sorted(m.capture_phase.items()):
+            if not phases:
+                continue
+            n += 1
+            if not C.module.relpath.startswith("gpytorch/"):
+                if "init" in phases:
+                    third_party.append("%s.%s" % (C.qualname, f))
+                continue
+            ok = phases == {"enter"}
+            rep.add("C20-9", "%s:%s:%s" % (C.module.name, C.qualname, f), C.where, ok,
+                    "captured in __enter__" if ok else
+                    "%s is restored from a value read in the constructor: an instance created before an enclosing block of the same setting was entered (or used for a second block) restores past that block - inside `with S(5): with inner:` the value after `inner` exits is the one of construction time, not 5" % f, {"phases": sorted(phases)})
+    rep.add("C20-9", "linear_operator.settings:<re-exported settings>[capture at construction]", "linear_operator/settings.py", not third_party,
+            "the re-exported settings capture at entry" if not third_party else
+            "the settings re-exported from linear_operator capture the previous value in their constructor (%d class fields: %s ...): third-party file, not repairable in /repo" % (len(third_party), ", ".join(third_party[:6])), {"fields": third_party})
+    rep.floor("C20-9", "restored fields with a known capture phase", n, 20)
